@@ -105,3 +105,4 @@ Theorem pinned_tree_refuted :
   grpc_error_from_trailer_pinned [x30; x30] DAbsent = TErr 0 /\
   grpc_error_from_trailer_pinned [x35] (DStatus 0) = TErr 0.
 Proof. repeat split; reflexivity. Qed.
+Print Assumptions pinned_tree_refuted.
